@@ -37,6 +37,7 @@ fn oracle_env(t: &mut Toks) -> Option<String> {
             "cv" => { vars.clear(); "-".into() }
             "af" => { let f = parse_f(t)?; fns.insert(key(&f.name), f); "-".into() }
             "afs" => { let k = t.usize()?; for _ in 0..k { let f = parse_f(t)?; fns.insert(key(&f.name), f); } "-".into() }
+            "ext" => { let k = t.usize()?; for _ in 0..k { let f = parse_f(t)?; fns.insert(key(&f.name), f); } "-".into() }   // extend_environment = add_functions(builtins())
             "rf" => { let n = t.name()?; match fns.remove(&key(&n)) { Some(f) => format!("some {}", show_f(&f)), None => "none".into() } }
             "gv" => { let n = t.name()?; match vars.get(&key(&n)) { Some(v) => format!("some {}", show(v)), None => "none".into() } }
             "ve" => { let n = t.name()?; (if vars.contains_key(&key(&n)) { "T" } else { "F" }).to_string() }
